@@ -1,12 +1,12 @@
 SPECIFICATION Spec
 CONSTANTS
-  Names = {"a", "b", "c"}
-  Groups = {"", "g1"}
+  Names = {"a", "b"}
+  Groups = {"", "g1", "g2"}
   Kinds = {"opt", "multi", "toggle"}
   LetterArgs = {"x", "y", "xy", ""}
-  EnvArgs = {}
-  MetaArgs = {"M"}
-  MaxObjs = 3
+  EnvArgs = {"E1", "E2"}
+  MetaArgs = {"M", ""}
+  MaxObjs = 2
 INVARIANTS NamesUnique LettersOneChar Unambiguous
 PROPERTIES Monotone MoveChangesNothing
 ACTION_CONSTRAINT EmitEdge
